@@ -137,7 +137,7 @@ class PerceptionFrameResult:
                 )
             tracking_results: Dict[LabelType, List[DynamicObjectWithPerceptionResult]] = object_results_dict.copy()
             for label, prev_results in previous_results_dict.items():
-                tracking_results[label] = [prev_results, tracking_results[label]]
+                tracking_results[label] = [prev_results, tracking_results.get(label, [])]
             self.metrics_score.evaluate_tracking(tracking_results, num_ground_truth_dict)
         if self.metrics_score.prediction_config is not None:
             pass
